@@ -57,6 +57,12 @@ static inline unsigned char *vs_bytes_at(const struct vs_bytes *v, size_t i)
     return &v->data[i];
 }
 /* vector(n, value): the fill value IS modelled for value 0 (calloc) */
+/* operator[]: precondition i < size (no exception: an index outside the vector is undefined behaviour) */
+static inline unsigned char *vs_bytes_index(const struct vs_bytes *v, size_t i)
+{
+    __CPROVER_assert(i < v->size, "std::vector::operator[] index within [0, size)");
+    return &v->data[i];
+}
 static inline struct vs_bytes vs_bytes_ctor_fill(size_t n, unsigned char value)
 {
     struct vs_bytes r;
